@@ -89,6 +89,12 @@ func (index *GsfaReader) Version() uint64 {
 	return index.man.Version()
 }
 
+// OffsetsMeta returns the metadata (epoch, root CID, network, kind) recorded
+// in the pubkey-to-offset-and-size index of this gsfa index.
+func (index *GsfaReader) OffsetsMeta() *indexes.Metadata {
+	return index.offsets.Meta()
+}
+
 func (index *GsfaReader) Get(
 	ctx context.Context,
 	pk solana.PublicKey,
